@@ -11,6 +11,7 @@ import MotoModel.Proofs.DiskSmall
 import MotoModel.Props.C04
 import MotoModel.Proofs.DiskOrder
 import MotoModel.Proofs.DiskBatchOrder
+import MotoModel.Proofs.Names
 namespace Moto.C02
 open Moto Moto.Disk
 
@@ -298,5 +299,21 @@ theorem add_appends_sources_in_order (fl : Flavour) (w : Tape.World) (verbose : 
   rw [add_on_saved fl w verbose archive img srcs himg]
   refine ⟨st.img, placed, hok, ?_, h4, h5, h6, h7⟩
   unfold performOn; rw [if_neg (by rw [himg.1]; omega), hst]
+
+
+/-- **C02 ("under its upper-cased 8.3 name")**: for *every* argument string, the name, the extension (with and without the
+    option `,a`) and the file read that the disk archivers derive from a source argument are those of the naming rule
+    `Spec.Names.diskSource` — the last path component cut at its last dot, both parts upper-cased — written without index
+    arithmetic (Proofs/Names.lean).  These are the eleven name bytes of the catalog entry (`newRecord`), from which
+    `diskName` — the name `--list` prints and `--extract` writes — is read back (`fileName_of_rec`). -/
+theorem source_naming_rule (src : Str) :
+    splitSource src = ((Spec.Names.diskSource src).name, (Spec.Names.diskSource src).ext,
+                       (Spec.Names.diskSource src).extWithOption, (Spec.Names.diskSource src).path) :=
+  splitSource_eq_spec src
+
+example : Spec.Names.diskSource (Tape.str "dir.d/prog.bas,a")
+    = ⟨Tape.str "PROG", Tape.str "BAS", Tape.str "BAS,A", Tape.str "dir.d/prog.bas"⟩ := by decide
+example : Spec.Names.diskSource (Tape.str "x/noext") = ⟨Tape.str "NOEXT", [], [], Tape.str "x/noext"⟩ := by decide
+example : Spec.Names.diskSource (Tape.str "prog.v2.bin") = ⟨Tape.str "PROG.V2", Tape.str "BIN", Tape.str "BIN", Tape.str "prog.v2.bin"⟩ := by decide
 
 end Moto.C02
